@@ -1,5 +1,6 @@
 import MLPE.Proofs.PlainDemo
 import MLPE.Proofs.WakeUp
+import MLPE.Proofs.LiveCheck
 
 /-!
 # C02 — every run terminates: no deadlock or lost wake-up under any schedule
@@ -28,10 +29,30 @@ task remains blocked on the condition of a node that reads `u` — directly, or 
 a case of (`__get_descendants` passes through switch nodes: the historic hangs P4 / P13) —, on `cond['run']`, or on the
 event of `u`; when `_run_switch` returns, nobody remains blocked on the condition of a consumer of the switch.
 
-Switch / one-of / recurrent shapes: the model is tied to the code by lock-step on all of them, the exact deadlock
-verdict of the stepping loop is compared with the model's `stuck` predicate on every explored trace, and the
-historic deadlocks (P1–P4, P13, P16) are regression programs; a liveness *theorem* for them is not claimed: for
-those shapes C02 rests on the correspondence plus the exact deadlock oracle, and is labelled partial.
+**Pipelines with switches (`LiveP`)** — any number of `SwitchCase`s, nested through case sub-DAGs, shared case nodes,
+cases that are computed before the decision is known (the historic hangs P4 / P13), any retry / default / execution-mode
+settings, node failures anywhere, collaborators that may **raise** at any call site but complete **without suspending**.
+Quantified over every interleaving of task sections, every completion order of node bodies and retry timers, and every
+admissible launch order:
+
+* `C02_switch_no_stuck_state`: while `chart.run` has not returned, the model is never in the idle-and-pending state;
+* `C02_switch_invariant`: the invariant behind it (`Struct`, `Proofs/Live.lean`): every task is described by its name and
+  frame stack; no lost wake-up — `run()` blocked ⇒ no task has failed and the output has no result; a node's waiter
+  blocked ⇒ the node is being executed by a live task; a launch loop blocked on `cond[m]` ⇒ `m` is not ready, or it
+  became ready because a switch recorded its decision when the selected case had already been computed, and then the
+  `_run_switch` task of that switch has not returned yet (it notifies the consumers when it does).  A state that
+  satisfies `Struct` is not stuck by induction on the depth of the node a blocked launch loop waits for
+  (`struct_live`);
+* `C02_switch_hypotheses_from_check`: `LiveP` follows from the executable check `livePB` (acyclicity by a depth table,
+  case labels only on edges from ordinary nodes into switch nodes, every reduced DAG the engine builds — up to the output,
+  up to a case node — exists, ends in its destination, is closed under dependencies); the driver evaluates the check on
+  the generated programs.
+
+One-of / recurrent shapes, and switches with suspending collaborators: the model is tied to the code by lock-step on
+all of them, the exact deadlock verdict of the stepping loop is compared with the model's `stuck` predicate on every
+explored trace, the explorer searches the model's state space of small programs for a stuck state, and the historic
+deadlocks (P1–P4, P13, P16) are regression programs; a liveness *theorem* for them is not claimed, and C02 is labelled
+partial for those shapes.
 -/
 namespace MLPE.Eng
 open MLPE
@@ -85,6 +106,34 @@ theorem C02_plain_launcher_blocked_legitimately (P : Program) (d : DagRef) (hp :
     | done r => simp [Task.isDone, hst] at hnd
     | runnable rv => simp [Task.marked, Task.isDone, hst, hmc] at this
     | blocked w => simp [Task.marked, Task.isDone, hst, hmc] at this
+
+/-! ### Pipelines with switches -/
+
+/-- **C02 (pipelines with switches): the stuck state is unreachable** -/
+theorem C02_switch_no_stuck_state (P : Program) (depth : Node → Nat) (hp : LiveP P depth) (s : St)
+    (h : LiveReach P s) : stuck s = false :=
+  live_not_stuck hp h
+
+/-- the invariant of pending switch runs: it holds in every state reached before `chart.run` returns -/
+theorem C02_switch_invariant (P : Program) (depth : Node → Nat) (hp : LiveP P depth) (s : St) (h : LiveReach P s)
+    (hpending : s.outcome = none) : Struct P depth s := by
+  rcases live_inv hp h with h1 | h1
+  · exact absurd hpending h1
+  · exact h1
+
+/-- a state that satisfies the invariant has a task that can make progress by itself -/
+theorem C02_switch_invariant_is_live (P : Program) (depth : Node → Nat) (hp : LiveP P depth) (s : St)
+    (hs : Struct P depth s) : ∃ (i : Nat) (tk : Task), s.tasks[i]? = some tk ∧ tk.live :=
+  struct_live hp hs
+
+/-- the hypotheses follow from the executable check -/
+theorem C02_switch_hypotheses_from_check (P : Program) (dl : List (Node × Nat)) (hsw : SwP P)
+    (hy : ∀ cb n, P.cbYield cb n = 0) (hch : ∀ n, (P.g.attr n).isOneofChild = false) (hc : livePB P dl = true) :
+    LiveP P (depthOf dl) :=
+  liveP_of_check dl hsw hy hch hc
+
+/-- the runs of the theorem are runs of the model -/
+theorem C02_switch_runs_are_reachable (P : Program) (s : St) (h : LiveReach P s) : Reach P s := h.reach
 
 /-! ### All programs: the notifications of a finishing node reach every consumer -/
 
